@@ -120,13 +120,13 @@ Proof.
   destruct n as [nk nm [h|]]; unfold keep_node; simpl; auto. destruct (expired t nm); auto.
 Qed.
 Definition recycle_events (L : latches) (s : sid) (t : ts) : list event :=
-  map (fun n => ERecycle (nkey n)) (filter (fun n => negb (keep_node t n)) (squeue (slots L s))).
+  map (fun n => ERecycle (nkey n) t (nmax n)) (filter (fun n => negb (keep_node t n)) (squeue (slots L s))).
 Lemma recycle_glog L s t : glog (recycle_slot L s t) = recycle_events L s t ++ glog L.
 Proof. reflexivity. Qed.
-Lemma recycle_events_shape L s t e : In e (recycle_events L s t) -> exists k, e = ERecycle k.
+Lemma recycle_events_shape L s t e : In e (recycle_events L s t) -> exists k c m, e = ERecycle k c m.
 Proof. unfold recycle_events. rewrite in_map_iff. intros [n [E _]]. eauto. Qed.
 Lemma recycle_maxK L s t k : qwf L ->
-  maxK (recycle_slot L s t) k = maxK L k \/ (maxK (recycle_slot L s t) k = 0%N /\ In (ERecycle k) (recycle_events L s t)).
+  maxK (recycle_slot L s t) k = maxK L k \/ (maxK (recycle_slot L s t) k = 0%N /\ In (ERecycle k t (maxK L k)) (recycle_events L s t)).
 Proof.
   intros Q. unfold maxK. rewrite recycle_nodeK by auto.
   destruct (N.eqb_spec (sf k) s) as [E|E]; auto.
@@ -151,10 +151,10 @@ Lemma mr_holderK L s t k : qwf L -> holderK (maybe_recycle L s t) k = holderK L 
 Proof. unfold maybe_recycle. destruct (Nat.leb _ _); auto using recycle_holderK. Qed.
 Lemma mr_glog L s t : glog (maybe_recycle L s t) = mr_events L s t ++ glog L.
 Proof. unfold maybe_recycle, mr_events. destruct (Nat.leb _ _); auto. Qed.
-Lemma mr_events_shape L s t e : In e (mr_events L s t) -> exists k, e = ERecycle k.
+Lemma mr_events_shape L s t e : In e (mr_events L s t) -> exists k c m, e = ERecycle k c m.
 Proof. unfold mr_events. destruct (Nat.leb _ _); [apply recycle_events_shape | intros []]. Qed.
 Lemma mr_maxK L s t k : qwf L ->
-  maxK (maybe_recycle L s t) k = maxK L k \/ (maxK (maybe_recycle L s t) k = 0%N /\ In (ERecycle k) (mr_events L s t)).
+  maxK (maybe_recycle L s t) k = maxK L k \/ (maxK (maybe_recycle L s t) k = 0%N /\ In (ERecycle k t (maxK L k)) (mr_events L s t)).
 Proof. unfold maybe_recycle, mr_events. destruct (Nat.leb _ _); auto using recycle_maxK. Qed.
 Lemma mr_waitS L s t s' : waitS (maybe_recycle L s t) s' = waitS L s'.
 Proof. unfold maybe_recycle. destruct (Nat.leb _ _); auto using recycle_waitS. Qed.
